@@ -41,7 +41,28 @@ def _task(sc):
     finally:
         w.close()
         rmtree(imgdir)
+    if WHICH == 'k':
+        _torn(sc, out)
     return out
+
+
+def _torn(sc, out):
+    """Second recording of the same scenario: the kill lands inside a write, which reaches the file only in part."""
+    import os
+    try:
+        w, imgdir, labels, info = record(sc, torn=True)
+    except (ExecTimeout, RuntimeError) as exc:
+        out['viol'].append((-1, 'torn', 'torn-recording-failed', str(exc)))
+        return
+    try:
+        out['torn'] = len(labels)
+        out['torn_labels'] = labels
+        for k, label in enumerate(labels):
+            for clause, detail in check_image(os.path.join(imgdir, f't{k}'), info):
+                out['viol'].append((k, label, 'torn-' + clause, detail))
+    finally:
+        w.close()
+        rmtree(imgdir)
 
 
 def run_generic(tier, report, prop, which, filt=None):
@@ -49,14 +70,15 @@ def run_generic(tier, report, prop, which, filt=None):
     WHICH = which
     scs = [s for s in scenarios(tier) if 'faults-only' not in s.tags and (filt is None or filt(s))]
     results = pmap(_task, scs)
-    total = 0
+    total = torn_total = 0
     distinct = set()
     samples = []
     per = {}
     for sc, out in zip(scs, results):
-        total += out['boundaries']
+        total += out['boundaries'] + out.get('torn', 0)
+        torn_total += out.get('torn', 0)
         per[sc.name] = out['boundaries']
-        for lab in out['labels']:
+        for lab in out['labels'] + out.get('torn_labels', []):
             distinct.add((sc.name.split('@')[0], lab))
         if len(samples) < 3 and out['labels']:
             samples.append({'scenario': sc.key(), 'boundaries': out['labels']})
@@ -74,17 +96,22 @@ def run_generic(tier, report, prop, which, filt=None):
     cov['evaluations'] = total
     cov['distinct_nontrivial'] = len(distinct)
     cov['scenarios'] = len(scs)
+    if which == 'k':
+        cov['torn_write_images'] = torn_total
     cov['boundaries_per_scenario'] = per
     cov['exhaustive'] = True
     cov['rule'] = ('every boundary before a mutating I/O call (open-for-write, write, flush, close, truncate, fsync, rename/replace/'
-                   'link/unlink/mkdir, SQL write, commit) of every scenario, plus the point after return; distinct = distinct '
+                   'link/unlink/mkdir, SQL write, commit) of every scenario, plus the point after return; for kill images also every '
+                   'write of >= 2 bytes to a pack or loose/sandbox file cut short after 1, half and all-but-one of its bytes (with '
+                   'everything written before it drained to the file); distinct = distinct '
                    '(operation variant, call label) pairs; each image is checked raw and through a fresh handle')
     cov['samples'] = samples
 
 
 def run(tier, report):
     report.assumptions += [
-        'kills inside a single write(2) or inside SQLite are not enumerated (SQLite recovery is trusted)',
+        'a kill inside a write of the library is enumerated at three cut points per write (1, half, all but one byte); '
+        'kills inside SQLite are not enumerated (SQLite recovery is trusted)',
         'images are taken at Python call boundaries of the interposed calls; user-space buffers are lost',
     ]
     run_generic(tier, report, PROP, 'k')
